@@ -32,3 +32,156 @@ def run(rep, tier):
                        lambda I, t, sy, mode: I.call_value(I.getattr(t, "editTimestamps"), [sy["off"], mode], {}),
                        lambda O, ents, m, M, sy, mode, kind=kind: specs.edit_timestamps(O, kind, ents, m, M, sy["off"], mode),
                        "%d generic entries x offset" % k, seams=(kind == "interval"), as_atoms=False)
+
+
+# ------------------------------------------------------------------------------- concatenation
+from ..absint import Lst, PyRaise, Tup, label_var  # noqa: E402
+from ..tables import (Atoms, Outcome, TableRun, build_tier, compare_outcomes, declare_tier, num_equal, read_tier,  # noqa: E402
+                      run_code, run_spec, run_states, tier_equal)
+from .tgops import build_tg, read_tg  # noqa: E402
+
+
+def append_tier_table(rep, kindA, kindB, ka, kb):
+    """C09: appending tier B to A yields A's entries unchanged followed by B's entries shifted by A's end time,
+    a span ending at the sum of both end times."""
+    idx = common.ctx()
+    fn = idx.get("TextgridTier.appendTier")
+    rep.functions.add(fn.qual)
+    at = Atoms()
+    A, am, aM = declare_tier(at, ka, kindA, prefix="a", as_atoms=False, span_atoms=False)
+    B, bm, bM = declare_tier(at, kb, kindB, prefix="b", as_atoms=False, span_atoms=False)
+    at.fact_le(Lin.num(0), am)  # timestamps are non-negative
+    at.fact_le(Lin.num(0), bm)
+    # appendTier shifts B with reporting silenced, but still compares the shifted ends with B's old span
+    at.var("bM")
+    for i in range(1, kb + 1):
+        nm = ("be%d" % i) if kindB == "interval" else ("bt%d" % i)
+        at.derived_atom("aM+" + nm, aM + Lin.var(nm))
+    tr = TableRun(rep, "T7-appendTier", fn.short, fn.loc)
+
+    def rows(st):
+        def code(I):
+            ta = build_tier(I, kindA, "A", A, am, aM)
+            tb = build_tier(I, kindB, "B", B, bm, bM)
+            res = I.call_value(I.getattr(ta, "appendTier"), [tb], {})
+            d = read_tier(I, res)
+            d["printed"] = I.prints > 0
+            return d
+        got, I = run_code(idx, st, code)
+
+        def spec(O):
+            if kindA != kindB:
+                O.raise_("ArgumentError")
+            if kindA == "interval":
+                shifted = [(aM + s, aM + e, l) for s, e, l in B]
+            else:
+                shifted = [(aM + t, l) for t, l in B]
+            return {"class": "IntervalTier" if kindA == "interval" else "PointTier", "entries": list(A) + shifted,
+                    "min": am, "max": aM + bM, "name": "A"}
+        want = run_spec(idx, st, spec)
+        row = compare_outcomes(I, "appendTier", got, want)
+        if row[1] and got.kind == "ok" and got.value.get("printed"):
+            row = ("appendTier", False, "appendTier printed a warning (reporting must be silenced while shifting)", None)
+        return [row]
+
+    run_states(at, rows, tr)
+    tr.done("A (%s, %d entries) . B (%s, %d entries)" % (kindA, ka, kindB, kb))
+
+
+def append_textgrid_table(rep):
+    """C09: '... and the tier set documented for onlyMatchingNames'."""
+    idx = common.ctx()
+    fn = idx.get("Textgrid.appendTextgrid")
+    rep.functions.add(fn.qual)
+    at = Atoms()
+    am, aM = Lin.var("am"), Lin.var("aM")
+    bm, bM = Lin.var("bm"), Lin.var("bM")
+    at.fact_le(Lin.num(0), am)
+    at.fact_le(am, aM)
+    at.fact_le(Lin.num(0), bm)
+    at.fact_le(bm, bM)
+    at.var("aM")  # one atom so that the (single) abstract state exists; everything else follows from the facts
+    spec_a = [("interval", "X", 1), ("point", "Y", 1), ("interval", "W", 0)]
+    spec_b = [("interval", "X", 1), ("point", "Z", 1)]
+
+    def mk(prefix, spec, lo, hi):
+        out = []
+        for kind, name, k in spec:
+            ents, _, _ = declare_tier(at, k, kind, prefix=prefix + name, span=False, as_atoms=False)
+            if ents:
+                first = prefix + name + ("s1" if kind == "interval" else "t1")
+                last = prefix + name + ("e%d" % k if kind == "interval" else "t%d" % k)
+                at.fact_le(lo, Lin.var(first))
+                at.fact_le(Lin.var(last), hi)
+            out.append((kind, name, ents))
+        return out
+    TA = mk("a", spec_a, am, aM)
+    TB = mk("b", spec_b, bm, bM)
+    tr = TableRun(rep, "T7-appendTextgrid", fn.short, fn.loc)
+
+    def rows(st):
+        out = []
+        for only in (True, False):
+            def code(I):
+                tga, _ = build_tg(I, TA, am, aM)
+                tgb, _ = build_tg(I, TB, bm, bM)
+                I.prints = 0
+                res = I.call_value(I.getattr(tga, "appendTextgrid"), [tgb, only], {})
+                d = read_tg(I, res)
+                d["printed"] = I.prints > 0
+                after = read_tg(I, tga)
+                d["unchangedA"] = [str(n) for n in after["names"]] == [n for _, n, _ in TA] and all(
+                    tier_equal(I, t, {"entries": list(e)}, check_span=False) is None for t, (_, _, e) in zip(after["tiers"], TA))
+                return d
+            got, I = run_code(idx, st, code)
+            if got.kind != "ok":
+                out.append(compare_outcomes(I, only, got, Outcome("ok", None)))
+                continue
+            v = got.value
+            namesA = [n for _, n, _ in TA]
+            namesB = [n for _, n, _ in TB]
+            if only:
+                exp_names = [n for n in namesA if n in namesB]
+            else:
+                exp_names = namesA + [n for n in namesB if n not in namesA]
+            diff = None
+            if not v["unchangedA"]:
+                diff = "the receiver textgrid was modified by appendTextgrid"
+            elif [str(n) for n in v["names"]] != exp_names:
+                diff = "tier names %s, expected %s" % (v["names"], exp_names)
+            elif not (num_equal(I, v["min"], am) and num_equal(I, v["max"], aM + bM)):
+                diff = "span (%r, %r), expected (%r, %r): a span ending at the sum of both end times" % (v["min"], v["max"], am, aM + bM)
+            else:
+                ea = {n: e for _, n, e in TA}
+                eb = {n: (k, e) for k, n, e in TB}
+                for t in v["tiers"]:
+                    n = str(t["name"])
+                    exp = list(ea.get(n, []))
+                    if n in eb:
+                        k, e = eb[n]
+                        exp += [((aM + x[0], aM + x[1], x[2]) if k == "interval" else (aM + x[0], x[1])) for x in e]
+                    d = tier_equal(I, t, {"entries": exp}, check_span=False)
+                    if d:
+                        diff = "tier %s: %s (expected A's entries unchanged followed by B's entries shifted by A's end time)" % (n, d)
+                        break
+            out.append((only, diff is None, diff or "", None))
+        return out
+
+    run_states(at, rows, tr)
+    tr.done("A{X,Y,W} . B{X,Z}, onlyMatchingNames in {True, False}")
+
+
+_run_shift = run
+
+
+def run(rep, tier):  # noqa: F811
+    _run_shift(rep, tier)
+    rep.rule("T7-appendTier", "abstract interpretation of appendTier on two generic tiers: A's entries then B's shifted by A's end, span (A.min, A.max + B.max); type mismatch -> ArgumentError; no warning")
+    rep.rule("T7-appendTextgrid", "abstract interpretation of appendTextgrid on two generic textgrids with equal, A-only and B-only tier names: tier set per onlyMatchingNames, entries concatenated with B shifted by A's end, span ending at the sum of both ends")
+    rep.not_decided.append("'+x then -x restores every entry to within rounding' (a numeric closeness claim)")
+    for ka, kb in ([(0, 0), (1, 0), (0, 1), (1, 1), (2, 1), (1, 2)] if tier == "quick" else [(0, 0), (1, 0), (0, 1), (1, 1), (2, 1), (1, 2), (2, 2)]):
+        append_tier_table(rep, "interval", "interval", ka, kb)
+        append_tier_table(rep, "point", "point", ka, kb)
+    append_tier_table(rep, "interval", "point", 1, 1)
+    append_tier_table(rep, "point", "interval", 1, 1)
+    append_textgrid_table(rep)
